@@ -13,6 +13,7 @@ import (
 	"sort"
 	"strconv"
 	"strings"
+	"runtime"
 	"sync"
 	"sync/atomic"
 	"time"
@@ -326,6 +327,14 @@ func runWorker(id string, args []string) int {
 			case <-done:
 				return
 			case <-time.After(2 * time.Second):
+			}
+			// a worker that grows beyond 3.5 GiB ends itself (16 of them share 62 GiB): an
+			// engine error is better than the kernel's OOM killer picking a victim
+			var ms runtime.MemStats
+			runtime.ReadMemStats(&ms)
+			if ms.HeapAlloc > 3584<<20 {
+				fmt.Fprintf(os.Stderr, "WATCHDOG worker %d uses %d MiB of heap at case %d\n", shard, ms.HeapAlloc>>20, e.caseNo)
+				os.Exit(4)
 			}
 			if b := atomic.LoadInt64(&e.beat); e.caseNo != last || b != lastBeat {
 				last, lastBeat, lastT = e.caseNo, b, time.Now()
